@@ -160,6 +160,9 @@ func (t *tr) callWrites(c *ast.CallExpr) []ast.Expr {
 		}
 		return []ast.Expr{sel.X}
 	}
+	if sig.Recv() != nil && fn.Pkg() != nil && (fn.Pkg().Path() == "io" || fn.Pkg().Path() == "hash") && fn.Name() == "Write" {
+		return []ast.Expr{c.Fun.(*ast.SelectorExpr).X}
+	}
 	fi, ok := funcs[funcKey(fn)]
 	if !ok {
 		return nil
@@ -230,6 +233,11 @@ func hasReturn(n ast.Node) bool {
 	ast.Inspect(n, func(m ast.Node) bool {
 		if _, ok := m.(*ast.ReturnStmt); ok {
 			found = true
+		}
+		if c, ok := m.(*ast.CallExpr); ok {
+			if id, ok := c.Fun.(*ast.Ident); ok && id.Name == "panic" {
+				found = true
+			}
 		}
 		if _, ok := m.(*ast.FuncLit); ok {
 			return false
@@ -371,7 +379,13 @@ func (t *tr) stmts(list []ast.Stmt, k cont) string {
 			}
 		}
 		if id, ok := c.Fun.(*ast.Ident); ok && id.Name == "panic" {
-			t.fail(x, "panic")
+			if _, isB := t.info.ObjectOf(id).(*types.Builtin); isB {
+				// no value: the translation yields `I3.Go.panic` (= default); theorems show the branch dead
+				if k.retTerm == nil {
+					t.fail(x, "panic in a position from which the function cannot return")
+				}
+				return t.flush() + k.retTerm("(I3.Go.panic : "+t.retTy+")")
+			}
 		}
 		t.call(c, 0)
 	default:
